@@ -5,7 +5,47 @@ open Mp4ff Mp4ff.BitSyn Mp4ff.AvcSps Mp4ff.Driver
 
 def showTrace (t : Trace) : String := " ".intercalate (t.map fun (n, v) => s!"{n}={v}")
 
-/-- the offsets of poc type 1 are read as ue(v) by the current code (known finding) unless `se` is requested -/
+/-- `GetSARfromIDC` (Table E-1); `none` = "SAR bad index" -/
+def sarOfIdc (idc : Nat) : Option (Nat × Nat) :=
+  if idc = 0 then some (0, 0) else
+  [(1, 1), (12, 11), (10, 11), (16, 11), (40, 33), (24, 11), (20, 11), (32, 11), (80, 33), (18, 11), (15, 11),
+   (64, 33), (160, 99), (4, 3), (3, 2), (2, 1)][idc - 1]?
+
+/-- sample aspect ratio as the parser stores it -/
+def sar (t : Trace) : Option (Nat × Nat) :=
+  if t.get "aspect_ratio_info_present_flag" = 1 then
+    if t.nat "aspect_ratio_idc" = 255 then some (t.nat "sar_width", t.nat "sar_height") else sarOfIdc (t.nat "aspect_ratio_idc")
+  else some (0, 0)
+
+/-- derived scaling lists: one entry per presence flag ("nil" when absent) -/
+def scalingLists (t : Trace) : String :=
+  let rec go : List (String × Int) → Nat → List String
+    | [], _ => []
+    | (n, v) :: rest, i =>
+      if n == "scaling_list_present" then
+        if v = 1 then
+          let ds := (rest.takeWhile (·.1 == "delta_scale")).map (·.2)
+          let size := if i < 6 then 16 else 64
+          ",".intercalate ((scalingList size ds).map toString) :: go rest (i + 1)
+        else "nil" :: go rest (i + 1)
+      else go rest i
+  "|".intercalate (go t 0)
+
+def hidden : List String := ["nal_header", "pic_width_in_mbs_minus1", "pic_height_in_map_units_minus1",
+  "aspect_ratio_info_present_flag", "aspect_ratio_idc", "sar_width", "sar_height", "scaling_list_present", "delta_scale"]
+
+/-- the parsed SPS in the canonical text both sides print (fields the Go struct keeps, in syntax order) -/
+def record (t : Trace) : Option String := do
+  let (w, h) ← dims t
+  let (sw, sh) ← sar t
+  let parts := t.flatMap fun (n, v) =>
+    if hidden.contains n then []
+    else if n == "seq_scaling_matrix_present_flag" ∧ v = 1 then [s!"{n}={v}", "lists=" ++ scalingLists t]
+    else if n == "vui_parameters_present_flag" ∧ v = 1 then [s!"{n}={v}", s!"sar={sw}:{sh}"]
+    else if n == "seq_parameter_set_id" then [s!"{n}={v.toNat % 2 ^ 32}"]
+    else [s!"{n}={v}"]
+  some (" ".intercalate parts ++ s!" dims={w}x{h}")
+
 def dispatch (op : String) (args : List String) : Option String :=
   match op, args with
   | "avcsps", [mode, h] => do
@@ -15,6 +55,14 @@ def dispatch (op : String) (args : List String) : Option String :=
       | some (t, e) =>
         let d := match dims t with | some (w, hh) => s!"{w}x{hh}" | none => "baddims"
         pure (s!"err={if e.err then 1 else 0} dims={d} read={e.nrBytesRead} " ++ showTrace t)
+  | "avcspsm", [mode, h] => do
+      let nalu ← fromHex h
+      if nalu.headD 0 % 32 ≠ 7 then pure "err" else
+      match parseNalu (fuel nalu) (sps (mode == "se")) nalu with
+      | none => pure "fuel"
+      | some (t, e) =>
+        if e.err then pure "err" else
+        pure (match record t with | some r => r | none => "err")
   | _, _ => none
 
 end Mp4ff.Driver.C15
